@@ -1,309 +1,30 @@
 package c10
 
 import (
-	"context"
 	"fmt"
-	"io"
-	"sort"
-	"sync"
 
 	"github.com/buildbarn/bb-remote-execution/pkg/builder"
-	"github.com/buildbarn/bb-remote-execution/pkg/filesystem/pool"
-	"github.com/buildbarn/bb-remote-execution/pkg/filesystem/virtual"
-	"github.com/buildbarn/bb-storage/pkg/filesystem"
-	"github.com/buildbarn/bb-storage/pkg/filesystem/path"
-	"github.com/buildbarn/bb-storage/pkg/random"
 
 	"verif/internal/outkit"
 	"verif/internal/vclock"
 )
 
-// memPool is a trivial in-memory pool.FilePool (one byte slice per file).
-type memPool struct {
-	mu     sync.Mutex
-	opened int
-	closed int
-}
-
-type memFile struct {
-	p    *memPool
-	mu   sync.Mutex
-	data []byte
-	hole pool.HoleSource
-}
-
-func (p *memPool) NewFile(holeSource pool.HoleSource, size uint64) (filesystem.FileReadWriter, error) {
-	p.mu.Lock()
-	p.opened++
-	p.mu.Unlock()
-	f := &memFile{p: p, hole: holeSource, data: make([]byte, size)}
-	if size > 0 {
-		if _, err := holeSource.ReadAt(f.data, 0); err != nil && err != io.EOF {
-			return nil, err
-		}
-	}
-	return f, nil
-}
-
-func (f *memFile) Close() error {
-	f.p.mu.Lock()
-	f.p.closed++
-	f.p.mu.Unlock()
-	return f.hole.Close()
-}
-
-func (f *memFile) ReadAt(p []byte, off int64) (int, error) {
-	f.mu.Lock()
-	defer f.mu.Unlock()
-	if off >= int64(len(f.data)) {
-		return 0, io.EOF
-	}
-	n := copy(p, f.data[off:])
-	if n < len(p) {
-		return n, io.EOF
-	}
-	return n, nil
-}
-
-func (f *memFile) WriteAt(p []byte, off int64) (int, error) {
-	f.mu.Lock()
-	defer f.mu.Unlock()
-	if end := off + int64(len(p)); end > int64(len(f.data)) {
-		f.data = append(f.data, make([]byte, end-int64(len(f.data)))...)
-	}
-	return copy(f.data[off:], p), nil
-}
-
-func (f *memFile) Truncate(size int64) error {
-	f.mu.Lock()
-	defer f.mu.Unlock()
-	if size <= int64(len(f.data)) {
-		f.data = f.data[:size]
-	} else {
-		f.data = append(f.data, make([]byte, size-int64(len(f.data)))...)
-	}
-	return nil
-}
-
-func (f *memFile) Sync() error { return nil }
-
-func (f *memFile) Len() (int64, error) {
-	f.mu.Lock()
-	defer f.mu.Unlock()
-	return int64(len(f.data)), nil
-}
-
-func (f *memFile) GetNextRegionOffset(offset int64, regionType filesystem.RegionType) (int64, error) {
-	f.mu.Lock()
-	defer f.mu.Unlock()
-	if offset >= int64(len(f.data)) {
-		return 0, io.EOF
-	}
-	if regionType == filesystem.Data {
-		return offset, nil
-	}
-	return int64(len(f.data)), nil
-}
-
-// errorCollector is the util.ErrorLogger of the virtual file system.
-type errorCollector struct {
-	mu   sync.Mutex
-	errs []error
-}
-
-func (e *errorCollector) Log(err error) {
-	e.mu.Lock()
-	e.errs = append(e.errs, err)
-	e.mu.Unlock()
-}
-
+// virtualBackend runs the direct driver over a virtual build directory.
 type virtualBackend struct{}
 
 func (virtualBackend) name() string { return "virtual" }
 
-type virtualOps struct {
-	root virtual.PrepopulatedDirectory
-	errs *errorCollector
-}
+type virtualOps struct{ v *outkit.VirtualRoot }
+
+func (o virtualOps) materialize(n *outkit.Node) error { return outkit.MaterializeVirtual(o.v.Root, n) }
+func (o virtualOps) snapshot() (*outkit.Node, error)  { return outkit.SnapshotVirtual(o.v.Root) }
 
 func (virtualBackend) open(h *harness, cas *outkit.Store) (builder.BuildDirectory, rootOps, func()) {
-	errs := &errorCollector{}
-	clock := vclock.New(1_700_000_000)
-	handleAllocator := virtual.NewFUSEHandleAllocator(random.FastThreadSafeGenerator)
-	setter := func(requested virtual.AttributesMask, attributes *virtual.Attributes) {}
-	symlinkFactory := virtual.NewHandleAllocatingSymlinkFactory(
-		virtual.NewBaseSymlinkFactory(setter),
-		handleAllocator.New(),
-		path.LocalFormat,
-	)
-	characterDeviceFactory := virtual.NewHandleAllocatingCharacterDeviceFactory(virtual.BaseCharacterDeviceFactory, handleAllocator.New())
-	root := virtual.NewInMemoryPrepopulatedDirectory(
-		virtual.NewHandleAllocatingFileAllocator(
-			virtual.NewPoolBackedFileAllocator(pool.EmptyFilePool, errs, setter, virtual.NoNamedAttributesFactory),
-			handleAllocator,
-		),
-		symlinkFactory,
-		errs,
-		handleAllocator,
-		sort.Sort,
-		func(string) bool { return false },
-		clock,
-		virtual.CaseSensitiveComponentNormalizer,
-		setter,
-		virtual.NoNamedAttributesFactory,
-	)
-	bd := builder.NewVirtualBuildDirectory(root, outkit.NewDirectoryFetcher(), cas, symlinkFactory, characterDeviceFactory, handleAllocator, setter, clock)
-	filePool := &memPool{}
-	bd.InstallHooks(filePool, errs)
-	return bd, virtualOps{root: root, errs: errs}, func() {
-		root.RemoveAllChildren(true)
-		errs.mu.Lock()
-		defer errs.mu.Unlock()
-		if len(errs.errs) > 0 {
-			panic(fmt.Sprintf("harness: virtual file system logged errors: %v", errs.errs))
+	v := outkit.NewVirtualRoot(outkit.NewDirectoryFetcher(), cas, vclock.New(1_700_000_000), true)
+	return v.BuildDirectory, virtualOps{v}, func() {
+		v.Root.RemoveAllChildren(true)
+		if errs := v.Errors.Errors(); len(errs) > 0 {
+			panic(fmt.Sprintf("harness: virtual file system logged errors: %v", errs))
 		}
 	}
-}
-
-// materialize acts as the build action: it goes through the
-// virtual.Directory operations the FUSE/NFS servers would call.
-func (o virtualOps) materialize(n *outkit.Node) error { return materializeVirtual(o.root, n) }
-
-func materializeVirtual(d virtual.Directory, n *outkit.Node) error {
-	ctx := context.Background()
-	for _, name := range n.Names() {
-		c := n.Children[name]
-		component := path.MustNewComponent(name)
-		var out virtual.Attributes
-		switch c.Kind {
-		case outkit.KindDir:
-			var child virtual.Directory
-			if existing, s := d.VirtualLookup(ctx, component, 0, &out); s == virtual.StatusOK {
-				dir, _ := existing.GetPair()
-				if dir == nil {
-					return fmt.Errorf("%q exists and is not a directory", name)
-				}
-				child = dir
-			} else if s == virtual.StatusErrNoEnt {
-				var attr virtual.Attributes
-				attr.SetPermissions(virtual.PermissionsRead | virtual.PermissionsWrite | virtual.PermissionsExecute)
-				created, _, s := d.VirtualMkdir(ctx, component, &attr, 0, &out)
-				if s != virtual.StatusOK {
-					return fmt.Errorf("mkdir %q: status %v", name, s)
-				}
-				child = created
-			} else {
-				return fmt.Errorf("lookup %q: status %v", name, s)
-			}
-			if err := materializeVirtual(child, c); err != nil {
-				return fmt.Errorf("%s/%w", name, err)
-			}
-		case outkit.KindFile:
-			var attr virtual.Attributes
-			perm := virtual.PermissionsRead | virtual.PermissionsWrite
-			if c.Exec {
-				perm |= virtual.PermissionsExecute
-			}
-			attr.SetPermissions(perm)
-			leaf, _, _, s := d.VirtualOpenChild(ctx, component, virtual.ShareMaskWrite, &attr, &virtual.OpenExistingOptions{Truncate: true}, 0, &out)
-			if s == virtual.StatusErrAccess || s == virtual.StatusErrROFS {
-				// Read-only input file: leave as is (the model holds
-				// the same contents).
-				continue
-			}
-			if s != virtual.StatusOK {
-				return fmt.Errorf("create %q: status %v", name, s)
-			}
-			for off := 0; off < len(c.Data); {
-				nw, s := leaf.VirtualWrite(ctx, c.Data[off:], uint64(off))
-				if s != virtual.StatusOK || nw == 0 {
-					leaf.VirtualClose(virtual.ShareMaskWrite)
-					return fmt.Errorf("write %q: status %v", name, s)
-				}
-				off += nw
-			}
-			leaf.VirtualClose(virtual.ShareMaskWrite)
-		case outkit.KindSymlink:
-			var attr virtual.Attributes
-			attr.SetFileType(filesystem.FileTypeSymlink)
-			attr.SetSymlinkTarget(path.UNIXFormat.NewParser(c.Target))
-			if _, _, s := d.VirtualMknod(ctx, component, &attr, 0, &out); s != virtual.StatusOK && s != virtual.StatusErrExist {
-				return fmt.Errorf("symlink %q: status %v", name, s)
-			}
-		case outkit.KindFifo:
-			var attr virtual.Attributes
-			attr.SetFileType(filesystem.FileTypeFIFO)
-			attr.SetPermissions(virtual.PermissionsRead | virtual.PermissionsWrite)
-			if _, _, s := d.VirtualMknod(ctx, component, &attr, 0, &out); s != virtual.StatusOK && s != virtual.StatusErrExist {
-				return fmt.Errorf("mkfifo %q: status %v", name, s)
-			}
-		default:
-			return fmt.Errorf("cannot materialise %s", c.Kind)
-		}
-	}
-	return nil
-}
-
-// snapshot reads the hierarchy back through the virtual node interface
-// (lookup of all children, attributes, reads), not through the upload code.
-func (o virtualOps) snapshot() (*outkit.Node, error) { return snapshotVirtual(o.root) }
-
-func snapshotVirtual(d virtual.PrepopulatedDirectory) (*outkit.Node, error) {
-	ctx := context.Background()
-	n := outkit.NewDir()
-	dirs, leaves, err := d.LookupAllChildren()
-	if err != nil {
-		return nil, err
-	}
-	for _, e := range dirs {
-		c, err := snapshotVirtual(e.Child)
-		if err != nil {
-			return nil, err
-		}
-		n.Children[e.Name.String()] = c
-	}
-	for _, e := range leaves {
-		var attr virtual.Attributes
-		e.Child.VirtualGetAttributes(ctx, virtual.AttributesMaskFileType|virtual.AttributesMaskPermissions|virtual.AttributesMaskSizeBytes|virtual.AttributesMaskSymlinkTarget, &attr)
-		switch attr.GetFileType() {
-		case filesystem.FileTypeRegularFile:
-			perm, _ := attr.GetPermissions()
-			size, _ := attr.GetSizeBytes()
-			var openAttr virtual.Attributes
-			if s := e.Child.VirtualOpenSelf(ctx, virtual.ShareMaskRead, &virtual.OpenExistingOptions{}, 0, &openAttr); s != virtual.StatusOK {
-				return nil, fmt.Errorf("open %q: status %v", e.Name, s)
-			}
-			data := make([]byte, size)
-			for off := uint64(0); off < size; {
-				nr, eof, s := e.Child.VirtualRead(ctx, data[off:], off)
-				if s != virtual.StatusOK {
-					e.Child.VirtualClose(virtual.ShareMaskRead)
-					return nil, fmt.Errorf("read %q: status %v", e.Name, s)
-				}
-				off += uint64(nr)
-				if eof || nr == 0 {
-					break
-				}
-			}
-			e.Child.VirtualClose(virtual.ShareMaskRead)
-			n.Children[e.Name.String()] = &outkit.Node{Kind: outkit.KindFile, Data: data, Exec: perm&virtual.PermissionsExecute != 0}
-		case filesystem.FileTypeSymlink:
-			target, ok := attr.GetSymlinkTarget()
-			if !ok {
-				return nil, fmt.Errorf("symlink %q without target", e.Name)
-			}
-			b, sw := path.EmptyBuilder.Join(path.VoidScopeWalker)
-			if err := path.Resolve(target, sw); err != nil {
-				return nil, err
-			}
-			n.Children[e.Name.String()] = &outkit.Node{Kind: outkit.KindSymlink, Target: b.GetUNIXString()}
-		case filesystem.FileTypeFIFO:
-			n.Children[e.Name.String()] = &outkit.Node{Kind: outkit.KindFifo}
-		case filesystem.FileTypeSocket:
-			n.Children[e.Name.String()] = &outkit.Node{Kind: outkit.KindSocket}
-		default:
-			n.Children[e.Name.String()] = &outkit.Node{Kind: outkit.KindOther}
-		}
-	}
-	return n, nil
 }
